@@ -22,9 +22,9 @@ import (
 // and then returns normally.  Termination: the replay and the writer both
 // return and every stored event reaches the callback once.
 type DuringCase struct {
-	Setup   []Op   `json:"setup"`
-	NName   int    `json:"nnames"`
-	At      int    `json:"at"`       // 1-based upcaster application that triggers the writer
+	Setup []Op `json:"setup"`
+	NName int  `json:"nnames"`
+	At    int  `json:"at"` // 1-based upcaster application that triggers the writer
 	// W: reg (on fresh names x->y) | clear | cleartype.  The configuration
 	// setters (SetUpcastErrorHandler, ...) are excluded from concurrent use
 	// by C03's statement and are not used as writers.
